@@ -18,6 +18,7 @@ Fixpoint pr0 (e:expr) : Prop :=
   | Const c => exists neg run v, const_text c neg run v
   | Var v => is_alpha v = true
   | Un UFact c => (exists n, c = Const n) /\ pr0 c
+  | Un UAbs _ => False   (* `abs` is not a function name of the tokenizer: abs(..) does not read back *)
   | Un _ c => pr0 c
   | Bin KEq _ _ => False
   | Bin _ l r => pr0 l /\ pr0 r
@@ -49,6 +50,7 @@ Fixpoint ptoks (e:expr) (parent:option (bk*dir)) : list token :=
   | Un UNeg c => T TMinus [45%N] :: (if neg_wrap c then paren_t (ptoks c None) else ptoks c None)
   | Un UFact c => ptoks c None ++ [T TFact [33%N]]
   | Un USgn c => T TFunc [115;103;110]%N :: paren_t (ptoks c None)
+  | Un UAbs c => []
   | Bin KPow l r =>
     (if lpar_kind l then paren_t (ptoks l (Some (KPow,DL))) else ptoks l (Some (KPow,DL))) ++ op_tok KPow ::
     (if rpar_kind r then paren_t (ptoks r (Some (KPow,DR))) else ptoks r (Some (KPow,DR)))
@@ -109,6 +111,7 @@ Proof.
       apply LS_func; [discriminate|reflexivity|reflexivity|reflexivity|simpl; tauto|].
       unfold paren_t. cbn [app]. apply (lex_opchar 40%N TOpen); [simpl; tauto|discriminate|].
       rewrite <- !app_assoc. apply (IH None s0 P S0); [cl|]. cbn [app]. apply (lex_opchar 41%N TClose); [simpl; tauto|discriminate|exact H].
+    + (* abs: not in the class *) cbn [pr0] in P. contradiction.
   - destruct (bk_eqb k KPow) eqn:KP.
     { (* power *) destruct k; try discriminate KP. cbn [pr0] in P. destruct P as [Pl Pr]. rewrite show_pow in S.
       destruct (show l _) as [a|] eqn:Sa; [|discriminate]. destruct (show r _) as [b|] eqn:Sb; [|discriminate].
